@@ -224,6 +224,9 @@ impl AtomicBool {
             loom::thread::yield_now();
             return;
         }
+        if crate::ctl::take_lock_spin() {
+            return;
+        }
         self.waiters.lock().unwrap().push(loom::thread::current());
         loom::thread::park();
     }
